@@ -364,6 +364,17 @@ class ScriptedProtocol(IProtocol):
             except ValueError:
                 res = "errvalue"
             CTX.trace.append("act %d %s %s" % (nid, _act_str(a), res))
+        ins = getattr(CTX, "inside", None)
+        if ins is not None and kind in ("timer", "packet") and getattr(CTX, "sim", None) is not None and not CTX.sim.is_simulation_done():
+            # (not when this callback is the last thing the run does: requests made after the end are not requests made before it)
+            # a coordinator: from inside its own callback (as the last thing it does) this protocol makes requests through
+            # ANOTHER node's provider -- for that node they are requests made outside its callbacks, at this instant
+            CTX.inside = None
+            real, CTX.trace = CTX.trace, []
+            try:
+                CTX.sim.get_node(ins[0]).protocol_encapsulator.protocol.external(ins[1])
+            finally:
+                CTX.inside_lines, CTX.trace = CTX.trace, real
         if CTX.scenario.get("readback"):
             # the protocol keeps part of its state in its tracked variables and reads it back: get-or-create, counters,
             # pop / update / iteration -- and what it reads decides its next request
@@ -490,10 +501,20 @@ class ScriptedProtocol(IProtocol):
             from gradysim.protocol.plugin.follow_mobility import MobilityLeaderPlugin, MobilityFollowerPlugin
             self._hosted = (MobilityLeaderPlugin if host == "leader" else MobilityFollowerPlugin)(self)
         self._fire("init", None, "init")
+        return self._result()
+
+    def _result(self):
+        """what the callback returns: nothing, as the interface says -- or, for code written the way `return is_new` or
+        `return len(inbox)` is, a value nobody asked for (the library gives callbacks' results no meaning)"""
+        if not CTX.scenario.get("cb_returns"):
+            return None
+        n = sum(self.counts.values())
+        return [True, 1, 0.5, 2.0, "again", n, [n], False][n % 8]
 
     def handle_timer(self, timer):
         n = _tnum(timer)
         self._fire("timer", n, "timer %s" % (n if n >= 0 else "corrupt:" + repr(timer)))
+        return self._result()
 
     def handle_packet(self, message):
         if (CTX.scenario.get("odd_payloads") or CTX.scenario.get("quote_plugin")) and isinstance(message, str) and "|" in message:
@@ -503,6 +524,7 @@ class ScriptedProtocol(IProtocol):
         if n >= 0 and CTX.scenario.get("long_payloads") and not CTX.scenario.get("odd_payloads") and len(str(message)) != _LONG:
             n = -1            # what arrives is not what was sent
         self._fire("packet", n, "packet %s" % (n if n >= 0 else "corrupt:" + repr(message)[:60]))
+        return self._result()
 
     def handle_telemetry(self, telemetry: Telemetry):
         p = telemetry.current_position
@@ -523,9 +545,11 @@ class ScriptedProtocol(IProtocol):
                 CTX.trace.append("stale %d telemetry carries %s %s %s , the node is at %s %s %s"
                                  % ((self.provider.get_id(),) + tuple(fhex(x) for x in p) + tuple(fhex(x) for x in actual)))
         self._fire("telem", (float(p[0]), float(p[1]), float(p[2])), "telem %s %s %s" % (fhex(p[0]), fhex(p[1]), fhex(p[2])))
+        return self._result()
 
     def finish(self):
         self._fire("finish", None, "finish")
+        return self._result()
 
 
 class _Idle(IProtocol):
@@ -736,6 +760,7 @@ def run_sim_impl(sc, variant=None):
     CTX.sim = None
     CTX.fired = 0
     CTX.ncb = 0
+    CTX.inside = None
     CTX.kept_telemetry = []
     orig_random = random.random
     stream = sc.get("stream")
@@ -898,10 +923,19 @@ def run_sim_impl(sc, variant=None):
                         status = "aborted"
             if drv[0] == "drive":
                 status = "running"
-                for op in drv[1]:
+                ops_, skip = drv[1], False
+                for j, op in enumerate(ops_):
+                    if skip:
+                        skip = False
+                        continue
                     if op[0] == "ext":
                         sim.get_node(op[1]).protocol_encapsulator.protocol.external(op[2])
                         continue
+                    CTX.inside = None
+                    if sc.get("ext_inside") and j + 1 < len(ops_) and ops_[j + 1][0] == "ext" and "M" not in sc["handlers"]:
+                        # the requests that follow this step are made from INSIDE the callback this step runs (if it runs a
+                        # timer or packet callback), by the node being called back, through the other node's provider
+                        CTX.inside = (ops_[j + 1][1], ops_[j + 1][2])
                     try:
                         r = sim.step_simulation()
                     except FailedAssertionException as e:
@@ -910,6 +944,10 @@ def run_sim_impl(sc, variant=None):
                         status = "aborted"
                         break
                     CTX.trace.append("ret %s" % ("true" if r else "false"))
+                    if sc.get("ext_inside") and j + 1 < len(ops_) and ops_[j + 1][0] == "ext" and "M" not in sc["handlers"] and CTX.inside is None:
+                        CTX.trace.extend(CTX.inside_lines)
+                        skip = True
+                    CTX.inside = None
                     if not r:
                         status = "done"
             it_count = getattr(sim, "_iteration", "?")
